@@ -1,2 +1,407 @@
+"""Script decoder (lexer + decode state machine): shared by C04 (R04.4: decode . encode = id) and C11 (R11.6: no
+panic on malformed instruction streams).
+
+The script of a miniscript is produced by the specification's templates (spec/script.py through spec/msexec.script;
+that the library's encoder emits these templates is C04 R04.1); pushes of keys and hashes are opaque byte tokens of
+the right length.  The library's lexer and Miniscript::decode_with_validation_params are evaluated from their typed
+syntax trees on the instruction list; rust-bitcoin's instruction iterator, read_scriptint and key / hash parsing are
+modelled."""
+
+import os
+import sys
+
+from ..interp import Machine, Adt, Term, PyVec, PyIter, Panic, ok, err, some, NONE
+from ..report import Unsupported
+from .. import model
+from . import c13
+
+X = c13.X
+INSTR = "bitcoin::script::Instruction"
+T = model.TERMINAL
+MS = model.MS
+CTXP = {"segwitv0": "miniscript::context::Segwitv0", "tap": "miniscript::context::Tap",
+        "legacy": "miniscript::context::Legacy", "bare": "miniscript::context::BareCtx"}
+KEYTY = {"segwitv0": "bitcoin::PublicKey", "tap": "bitcoin::secp256k1::XOnlyPublicKey"}
+
+sys.path.insert(0, os.path.join(os.path.dirname(__file__), "..", "..", "spec"))
+import script as S  # noqa: E402
+
+
+def scriptint_bytes(n):
+    """minimal CScriptNum encoding of n >= 0"""
+    out = []
+    while n:
+        out.append(n & 0xff)
+        n >>= 8
+    if out and out[-1] & 0x80:
+        out.append(0)
+    return out
+
+
+def read_scriptint(bs):
+    """rust-bitcoin script::read_scriptint: <= 4 bytes, minimal encoding; -> ('ok', n) | ('err', why)"""
+    if len(bs) > 4:
+        return ("err", "NumericOverflow")
+    if bs:
+        if bs[-1] & 0x7f == 0:
+            if len(bs) <= 1 or (bs[-2] & 0x80) == 0:
+                return ("err", "NonMinimalPush")
+    n = 0
+    for i, b in enumerate(bs):
+        n |= b << (8 * i)
+    if bs and bs[-1] & 0x80:
+        n &= ~(0x80 << (8 * (len(bs) - 1)))
+        n = -n
+    return ("ok", n)
+
+
+def instructions(items):
+    """spec script items -> instruction model values"""
+    out = []
+    for it in items:
+        if it[0] == "op":
+            out.append(("op", S.OP[it[1]]))
+        else:
+            v = it[1]
+            if isinstance(v, int):
+                if v == 0:
+                    out.append(("op", 0x00))
+                elif 1 <= v <= 16:
+                    out.append(("op", 0x50 + v))
+                else:
+                    out.append(("push", PyVec(scriptint_bytes(v))))
+            elif isinstance(v, tuple) and v[0] == "hash":
+                ln = 20 if v[1] in ("HASH160", "RIPEMD160") else 32
+                out.append(("push", X.Tok("hash", repr(v), ln, True, v)))
+            else:
+                out.append(("push", v))
+    return out
+
+
+def to_instr(i):
+    if i[0] == "op":
+        return ok(Adt(INSTR, "Op", {"0": Adt("bitcoin::Opcode", "Opcode", {"code": i[1]})}))
+    if i[0] == "bad":
+        return err(Term("ScriptError", i[1]))
+    return ok(Adt(INSTR, "PushBytes", {"0": i[1]}))
+
+
+class Script(object):
+    def __init__(self, instrs):
+        self.instrs = list(instrs)
+
+    def byte_len(self):
+        n = 0
+        for i in self.instrs:
+            if i[0] == "op":
+                n += 1
+            elif i[0] == "push":
+                v = i[1]
+                n += 1 + (len(v.items) if isinstance(v, PyVec) else v.length)
+        return n
+
+
+class Decoder(object):
+    def __init__(self, F):
+        self.F = F
+        m = Machine(F, strict=True, max_depth=80)
+        m.max_steps = 3_000_000
+        self.m = m
+        from ..builtins import deref
+        h = m.hooks
+        h["bitcoin::Script::len"] = lambda m_, a, c: deref(a[0]).byte_len()
+        h["bitcoin::Script::instructions_minimal"] = lambda m_, a, c: PyIter([to_instr(i) for i in deref(a[0]).instrs])
+        h["bitcoin::script::PushBytes::as_bytes"] = lambda m_, a, c: deref(a[0])
+        h["bitcoin::script::PushBytes::to_owned"] = lambda m_, a, c: deref(a[0])
+
+        def rsi(m_, a, c):
+            v = deref(a[0])
+            if isinstance(v, PyVec):
+                r = read_scriptint(v.items)
+                return ok(r[1]) if r[0] == "ok" else err(Term("ScriptIntError", r[1]))
+            if hasattr(v, "length"):
+                # opaque bytes of a length that is not 20/32/33/65: longer than 4 -> overflow
+                return err(Term("ScriptIntError", "NumericOverflow")) if v.length > 4 else ok(Term("opaque_int"))
+            raise Unsupported("read_scriptint(%r)" % (v,))
+        h["bitcoin::script::read_scriptint"] = rsi
+
+        def pk_from_slice(kind):
+            def f(m_, a, c):
+                v = deref(a[0])
+                if isinstance(v, X.Tok) and v.kind == "key" and v.extra in kind:
+                    if v.extra == "schnorr":
+                        return ok(v)
+                    return ok(Adt("bitcoin::PublicKey", "PublicKey", {"compressed": v.extra == "ecdsa", "inner": v}))
+                return err(Term("KeyError"))
+            return f
+        h["bitcoin::PublicKey::from_slice"] = pk_from_slice(("ecdsa", "ecdsa-uncompressed"))
+        h["bitcoin::XOnlyPublicKey::from_slice"] = pk_from_slice(("schnorr",))
+        h["bitcoin::secp256k1::XOnlyPublicKey::from_slice"] = pk_from_slice(("schnorr",))
+        self.ctx = "segwitv0"
+        for n in (20, 32, 33, 65):
+            h["<&'a [u8; %d] as bitcoin::hex_conservative::DisplayHex>::as_hex" % n] = lambda m_, a, c: deref(a[0])
+        h["bitcoin::hex_conservative::DisplayHex::as_hex"] = lambda m_, a, c: deref(a[0])
+
+        def parseable(m_, a, c):
+            # `<Ctx as ScriptContext>::Key::from_slice`: the context's key type
+            f = pk_from_slice(("schnorr",) if self.ctx == "tap" else ("ecdsa", "ecdsa-uncompressed"))
+            r = f(m_, a, c)
+            if r.variant == "Err":
+                kerr = [x for x in F.adts if x.endswith("decode::KeyError")]
+                return err(Adt(kerr[0], "XOnly" if self.ctx == "tap" else "Full", {"0": r.fields["0"]})) if kerr else r
+            return r
+        h["miniscript::decode::ParseableKey::from_slice"] = parseable
+        for nm in ("bitcoin::hashes::Hash::from_byte_array", "bitcoin::bitcoin_hashes::Hash::from_byte_array",
+                   "bitcoin::hashes::sha256::Hash::from_byte_array", "bitcoin::hashes::hash160::Hash::from_byte_array",
+                   "bitcoin::hashes::ripemd160::Hash::from_byte_array", "bitcoin::hashes::sha256d::Hash::from_byte_array"):
+            h[nm] = lambda m_, a, c: deref(a[0])
+        self.fn = F.fn("decode_with_validation_params", file="miniscript/mod.rs")
+
+    def decode(self, instrs, ctx, params="CONSENSUS"):
+        F = self.F
+        self.ctx = ctx
+        ctxp = CTXP[ctx]
+        const = "<%s as miniscript::context::ScriptContext>::%s" % (ctxp, params)
+        from .. import constval
+        pv = constval.parse(F.consts[const]["value"])
+        return self.m.call_callee({"def": self.fn, "resolved": self.fn, "name": "decode_with_validation_params",
+                                   "targs": [KEYTY[ctx], ctxp]}, [Script(instrs), pv])
+
+
+def norm(v):
+    """decoded model Miniscript -> spec AST (msexec.Node-like tuples)"""
+    if isinstance(v, Adt) and v.path == MS:
+        return norm(v.fields["node"])
+    if isinstance(v, Adt) and v.path == T:
+        x = v.variant
+        f = v.fields
+        if x in ("True", "False"):
+            return (x,)
+        if x in ("PkK", "PkH"):
+            return (x, keyname(f["0"]))
+        if x == "RawPkH":
+            hv = f["0"]
+            if isinstance(hv, X.Tok) and isinstance(hv.extra, tuple) and isinstance(hv.extra[2], X.Tok):
+                return (x, hv.extra[2].name)
+            return (x, repr(hv))
+        if x in ("After", "Older"):
+            lk = f["0"]
+            n = lk.fields["0"] if isinstance(lk, Adt) else lk
+            if isinstance(n, Adt):
+                n = n.fields["0"]
+            return (x, n)
+        if x in ("Sha256", "Hash256", "Ripemd160", "Hash160"):
+            hv = f["0"]
+            return (x, hv.extra[2].name if isinstance(hv, X.Tok) and isinstance(hv.extra, tuple) else repr(hv))
+        if x in ("Multi", "SortedMulti", "MultiA", "SortedMultiA"):
+            th = f["0"]
+            return (x, th.fields["k"], tuple(keyname(k) for k in th.fields["inner"].items))
+        if x == "Thresh":
+            th = f["0"]
+            return (x, th.fields["k"], tuple(norm(c) for c in th.fields["inner"].items))
+        return (x,) + tuple(norm(f[str(i)]) for i in range(len(f)))
+    return ("?", repr(v))
+
+
+def to_node(t):
+    """norm tuple -> msexec.Node (None if not expressible)"""
+    v = t[0]
+    if v in ("True", "False"):
+        return X.Node(v)
+    if v in ("PkK", "PkH", "After", "Older", "Sha256", "Hash256", "Ripemd160", "Hash160"):
+        return X.Node(v, data=t[1])
+    if v == "RawPkH":
+        return X.Node("PkH", data=t[1])        # same script: DUP HASH160 <hash of key> EQUALVERIFY
+    if v in ("Multi", "SortedMulti", "MultiA", "SortedMultiA"):
+        return X.Node(v, data=(t[1], list(t[2])))
+    if v == "Thresh":
+        kids = [to_node(c) for c in t[2]]
+        return None if any(k is None for k in kids) else X.Node(v, kids, data=t[1])
+    if v == "?":
+        return None
+    kids = [to_node(c) for c in t[1:]]
+    return None if any(k is None for k in kids) else X.Node(v, kids)
+
+
+def keyname(k):
+    if isinstance(k, Adt) and "inner" in k.fields:
+        k = k.fields["inner"]
+    return k.name if isinstance(k, X.Tok) else repr(k)
+
+
+def spec_norm(n, ctx):
+    v = n.v
+    if v in ("True", "False"):
+        return (v,)
+    if v in ("PkK", "PkH"):
+        return (v, n.data)
+    if v in ("After", "Older"):
+        return (v, n.data)
+    if v in ("Sha256", "Hash256", "Ripemd160", "Hash160"):
+        return (v, n.data)
+    if v in ("Multi", "SortedMulti", "MultiA", "SortedMultiA"):
+        k, keys = n.data
+        # a sorted multisig script is a plain multisig with the keys in sorted order: the decoder cannot know
+        name = {"SortedMulti": "Multi", "SortedMultiA": "MultiA"}.get(v, v)
+        ks = sorted(keys) if v.startswith("Sorted") else keys
+        return (name, k, tuple(ks))
+    if v == "Thresh":
+        return (v, n.data, tuple(spec_norm(c, ctx) for c in n.kids))
+    return (v,) + tuple(spec_norm(c, ctx) for c in n.kids)
+
+
+EXTRA_SCRIPTS = [
+    ("and_v(v:pk(A),and_v(v:pk(B),pk(C)))", "segwitv0"), ("or_i(or_i(pk(A),pk(B)),pk(C))", "segwitv0"),
+    ("andor(pk(A),or_i(pk(B),pk(C)),pk(D))", "segwitv0"), ("c:or_i(pk_k(A),pk_h(B))", "segwitv0"),
+    ("and_v(vc:pk_h(A),older(100000))", "segwitv0"), ("and_v(v:after(499999999),pk(A))", "segwitv0"),
+    ("and_v(v:older(65535),pk(A))", "segwitv0"), ("and_v(v:older(17),pk(A))", "segwitv0"),
+    ("and_v(v:older(128),pk(A))", "segwitv0"), ("and_v(v:older(32768),pk(A))", "segwitv0"),
+    ("or_b(pk(A),a:or_b(pk(B),a:pk(C)))", "segwitv0"), ("and_b(sha256(H),a:hash256(G))", "segwitv0"),
+    ("and_b(ripemd160(H),a:hash160(G))", "segwitv0"), ("thresh(3,pk(A),s:pk(B),s:pk(C),sln:older(12))", "segwitv0"),
+    ("or_d(pk(A),or_d(pk(B),pk(C)))", "segwitv0"), ("t:or_c(pk(A),or_c(pk(B),v:pk(C)))", "segwitv0"),
+    ("and_v(or_c(pk(A),v:pk(B)),pk(C))", "segwitv0"), ("andor(pk(A),pk(B),0)", "segwitv0"),
+    ("or_i(0,or_i(pk(A),0))", "segwitv0"), ("and_v(v:and_v(v:pk(A),pk(B)),pk(C))", "segwitv0"),
+    ("multi(1,A)", "segwitv0"), ("multi(3,A,B,C,D,E)", "segwitv0"), ("thresh(1,multi(1,A,B))", "segwitv0"),
+    ("and_v(v:multi_a(1,A),pk(B))", "tap"), ("or_i(multi_a(2,A,B),pk(C))", "tap"), ("and_v(v:pkh(A),older(5))", "tap"),
+]
+
+
+def family():
+    return list(c13.SCRIPTS) + EXTRA_SCRIPTS
+
+
 def check_decoder(chk, F):
-    pass
+    """R04.4"""
+    R = "R04.4"
+    chk.rule(R, "decode . encode = id: for every script of the family (every fragment, both contexts, number pushes of "
+                "every encoded width) the library's lexer + decoder, evaluated on the specification's Script for the "
+                "miniscript, rebuild exactly that miniscript (sorted multisig decodes as the plain form with sorted keys)")
+    D = Decoder(F)
+    chk.saw(D.fn, F.fn("lex", file="miniscript/lex.rs"), F.fn("decode", file="miniscript/decode.rs"))
+    n_ok = 0
+    for text, ctx in family():
+        key = "%s|%s" % (ctx, text)
+        try:
+            ast = X.parse(text)
+            ins = instructions(X.script(ast, ctx))
+            r = D.decode(ins, ctx)
+            if not (isinstance(r, Adt) and r.variant == "Ok"):
+                chk.fail(R, key, "the script of %s is not decoded: %s" % (text, repr(r)[:200]), where="src/miniscript/decode.rs")
+                continue
+            got, want = norm(r.fields["0"]), spec_norm(ast, ctx)
+            if got != want:
+                # different trees are fine when they are the same script (and_v is associative in Script, a key hash
+                # cannot be inverted): compare the specification's scripts of both trees
+                back = to_node(got)
+                s1 = repr(instructions(X.script(back, ctx))) if back is not None else None
+                if s1 != repr(ins):
+                    chk.fail(R, key, "decoded as %r, whose script differs from the script of %r" % (got, want),
+                             where="src/miniscript/decode.rs")
+                    continue
+            chk.ok(R)
+            n_ok += 1
+        except Unsupported as e:
+            chk.fail(R, "unanalysable:" + key, "unanalysable: %s" % e, where=e.where, kind="unanalysable")
+        except Panic as e:
+            chk.fail(R, key, "panic while decoding a valid script: %s" % e, where="src/miniscript/decode.rs")
+    chk.floor(R, "scripts round-tripped", n_ok, 70)
+
+
+ALL_OPS = sorted(set(S.OP.values()) | {0x4f, 0x50, 0x61, 0x6a, 0x74, 0x7e, 0x8b, 0xa3, 0xb0, 0xbb, 0xff})
+
+
+def malformed(ins):
+    """single-instruction mutations of an instruction list"""
+    out = []
+    pushes = [("push", X.key("Z", "ecdsa")), ("push", X.key("Z", "schnorr")), ("push", X.Tok("hash", "z20", 20)),
+              ("push", X.Tok("hash", "z32", 32)), ("push", X.Tok("key", "U", 65, True, "ecdsa-uncompressed")),
+              ("push", PyVec([0x80])), ("push", PyVec([0x00])), ("push", PyVec([1, 0])), ("push", PyVec([255, 255, 255, 255, 0])),
+              ("push", PyVec([17])), ("push", PyVec([])), ("push", X.Tok("junk", "j7", 7)), ("bad", "EarlyEndOfScript")]
+    for i in range(len(ins) + 1):
+        if i < len(ins):
+            out.append(ins[:i] + ins[i + 1:])                  # delete
+            out.append(ins[:i] + [ins[i], ins[i]] + ins[i + 1:])  # duplicate
+            if i + 1 < len(ins):
+                x = list(ins)
+                x[i], x[i + 1] = x[i + 1], x[i]
+                out.append(x)
+        for op in (0x00, 0x51, 0x52, 0x60, 0x63, 0x64, 0x67, 0x68, 0x69, 0x76, 0x7c, 0x82, 0x87, 0x88, 0x92, 0x93, 0x9a,
+                   0x9b, 0x9c, 0xac, 0xad, 0xae, 0xb1, 0xb2, 0xba, 0x6b, 0x6c, 0x73, 0xa9, 0xa8, 0x6a):
+            out.append(ins[:i] + [("op", op)] + ins[i:])         # insert an opcode
+            if i < len(ins):
+                out.append(ins[:i] + [("op", op)] + ins[i + 1:])  # replace by an opcode
+        for p in pushes:
+            out.append(ins[:i] + [p] + ins[i:])
+            if i < len(ins):
+                out.append(ins[:i] + [p] + ins[i + 1:])
+    out.append([])
+    return out
+
+
+def _mal_work(args):
+    from .. import facts
+    F = facts.load()
+    text, ctx, tier = args
+    D = Decoder(F)
+    ast = X.parse(text)
+    ins = instructions(X.script(ast, ctx))
+    out = []
+    n = 0
+    accepted = 0
+    muts = malformed(ins)
+    if tier == "quick":
+        muts = muts[::3]
+    for mi in muts:
+        try:
+            n += 1
+            r = D.decode(mi, ctx)
+            if isinstance(r, Adt) and r.variant == "Ok":
+                accepted += 1
+        except Panic as e:
+            out.append((text, repr(mi)[:300], str(e)))
+        except Unsupported as e:
+            return text, n, out, str(e), accepted
+        except RecursionError:
+            out.append((text, repr(mi)[:300], "evaluator recursion limit"))
+    return text, n, out, None, accepted
+
+
+def check_decoder_panics(chk, F, R="R11.6"):
+    import multiprocessing as mp
+    chk.rule(R, "the lexer and the script decoder do not panic on malformed instruction streams: every single deletion, "
+                "duplication, neighbour swap, opcode insertion / replacement and push insertion / replacement (keys of "
+                "the wrong kind, hashes, non-minimal / negative / oversized numbers, truncated script) of the script of "
+                "every miniscript of the family, plus every one- and two-instruction script over all opcodes")
+    jobs = [(t, c, chk.tier) for (t, c) in family()]
+    with mp.Pool(min(16, os.cpu_count() or 4)) as pool:
+        results = pool.map(_mal_work, jobs, chunksize=1)
+    total = 0
+    for text, n, out, unsup, accepted in results:
+        total += n
+        if unsup:
+            chk.fail(R, "unanalysable:" + text, "unanalysable: %s" % unsup, kind="unanalysable")
+        elif out:
+            chk.fail(R, text, "%d instruction stream(s) panic; first: %s: %s" % (len(out), out[0][1], out[0][2]),
+                     where="src/miniscript/decode.rs", detail=out[:10])
+        else:
+            chk.ok(R)
+    # tiny scripts over every opcode
+    D = Decoder(F)
+    bad = []
+    n = 0
+    for ctx in ("segwitv0", "tap"):
+        for a in ALL_OPS:
+            for b in [None] + ALL_OPS[:40]:
+                ins = [("op", a)] + ([("op", b)] if b is not None else [])
+                try:
+                    n += 1
+                    D.decode(ins, ctx)
+                except Panic as e:
+                    bad.append((repr(ins), str(e)))
+                except Unsupported as e:
+                    chk.fail(R, "unanalysable:tiny", "unanalysable: %s on %r" % (e, ins), kind="unanalysable")
+                    break
+    chk.obligation(R, not bad, "tiny-scripts", "%d tiny script(s) panic; first %r" % (len(bad), bad[:1]),
+                   where="src/miniscript/decode.rs", detail=bad[:10])
+    chk.extra[R + "_streams"] = total + n
+    chk.floor(R, "instruction streams evaluated", total + n, 5000)
